@@ -6,8 +6,11 @@ class MonitoredPreprocessor:
   """Callable preprocessor X[indices] that logs every consultation and can
   be told to raise a chosen exception."""
 
-  def __init__(self, X, raise_exc=None, raise_after=0):
+  def __init__(self, X, raise_exc=None, raise_after=0, as_list=False):
     self.X = np.asarray(X)
+    # (the documentation asks a callable for "a 2D array-like": a list of
+    # points is one)
+    self.as_list = as_list
     self.calls = []
     self.raise_exc = raise_exc
     self.raise_after = raise_after
@@ -17,6 +20,8 @@ class MonitoredPreprocessor:
                        str(np.asarray(indices).dtype)))
     if self.raise_exc is not None and len(self.calls) > self.raise_after:
       raise self.raise_exc
+    if self.as_list:
+      return self.X[indices].tolist()
     return self.X[indices]
 
   @property
@@ -29,5 +34,6 @@ class MonitoredPreprocessor:
 
   # sklearn.clone deep-copies parameters; keep the log shared semantics simple
   def __deepcopy__(self, memo):
-    c = MonitoredPreprocessor(self.X.copy(), self.raise_exc, self.raise_after)
+    c = MonitoredPreprocessor(self.X.copy(), self.raise_exc, self.raise_after,
+                              self.as_list)
     return c
